@@ -33,7 +33,7 @@ def shards(tier):
 def check_case(run, fcp, sch, name, v, text, sig=None):
     from fcp import serde
 
-    case = {"schema": text, "struct": name, "value": v, "description": sch.decls if sch is not None else None}
+    case = {"schema": text, "struct": name, "value": v, "description": sch.decls if sch is not None else None, "shared_subobjects": CC.shares_objects(v)}
     import copy as _copy
 
     pristine = _copy.deepcopy(v)
@@ -141,6 +141,12 @@ def run(run):
             if ci % 5 == 2:
                 CC.provoke_faults(run, fcp, sch, name, v, ci)
             check_case(run, fcp, sch, name, v, text, sig)
+            if ci % 4 == 1:
+                # the same value with its equal sub-values being one shared object (no cycle)
+                sv = CC.intern_equal(v)
+                if CC.shares_objects(sv):
+                    check_case(run, fcp, sch, name, sv, text, sig + "|shared-subobjects")
+                    run.count("values_with_shared_subobjects")
         del fcp, res
     CC.address_reuse_history(run, lambda fcp, sch, name, v, text, sig: check_case(run, fcp, sch, name, v, text, sig), run.pick(120, 1200))
     CC.edited_schema_history(run, lambda fcp, sch, name, v, text, sig: check_case(run, fcp, sch, name, v, text, sig), run.pick(20, 200))
@@ -149,7 +155,7 @@ def run(run):
 
 
 def conclude(run):
-    run.require("encode_calls", "decode_calls", "roundtrips_equal")
+    run.require("values_with_shared_subobjects", "encode_calls", "decode_calls", "roundtrips_equal")
 
 
 def replay(run, case):
@@ -158,4 +164,4 @@ def replay(run, case):
         run.violation("front end rejected the schema: %r" % (res.err(),), case)
         return
     sch = S.Sch(case["description"]) if case.get("description") else None
-    check_case(run, res.unwrap(), sch, case["struct"], case["value"], case["schema"])
+    check_case(run, res.unwrap(), sch, case["struct"], CC.intern_equal(case["value"]) if case.get("shared_subobjects") else case["value"], case["schema"])
